@@ -26,12 +26,19 @@ func init() { registerReplay("c02", checkC02) }
 
 // buildMessage constructs a data message for a header model through the public API.
 func buildMessage(h Hdr, item ast.ItemNode, route int) *ast.DataMessage {
+	// the caller's system-bytes slice is overwritten right after the call: the message must hold its own copy
+	sys := append([]byte(nil), h.System...)
+	defer func() {
+		for i := range sys {
+			sys[i] ^= 0xFF
+		}
+	}()
 	if route == 1 && h.Wait != 2 && h.Session != -1 && len(item.Variables()) == 0 {
-		return ast.NewHSMSDataMessage(h.Name, h.Stream, h.Function, h.Wait, h.Dir, item, h.Session, h.System)
+		return ast.NewHSMSDataMessage(h.Name, h.Stream, h.Function, h.Wait, h.Dir, item, h.Session, sys)
 	}
 	m := ast.NewDataMessage(h.Name, h.Stream, h.Function, h.Wait, h.Dir, item)
 	if h.Session != -1 {
-		m = m.SetSessionIDAndSystemBytes(h.Session, h.System)
+		m = m.SetSessionIDAndSystemBytes(h.Session, sys)
 	}
 	return m
 }
